@@ -130,7 +130,7 @@ def selfInsertBind : Bind := ⟨"self-insert", false⟩
 
 /-- the multibyte fallback of `MatchMain` + `matchCharacter`: engine, bind, prefix, read -/
 def matchCharacter (e : Eng) (bind : Bind) (pfx : Bool) (read : Seq) : Eng × Bind × Bool × Seq :=
-  if bind.action = "" ∧ pfx = false ∧ read.length = 1 ∧ read.headD 0 ≥ 0x80 ∧ e.insertsText = true then
+  if bind.action = "" ∧ pfx = false ∧ read.headD 0 ≥ 0x80 ∧ fullRune read.dropLast = false ∧ e.insertsText = true then
     let r := matchCharLoop 4 e read
     if r.2.2 = false then (r.1, Bind.none, true, r.2.1)
     else if (decodeRune r.2.1).1 = 0xFFFD then (r.1, Bind.none, false, r.2.1)
